@@ -150,6 +150,7 @@ func runC08() int {
 	delims := []string{"."}
 	if thorough {
 		delims = append(delims, others...)
+		delims = append(delims, "") // the empty delimiter is accepted by the CLI (-delim "")
 	} else {
 		p := rng.Perm(len(others))
 		delims = append(delims, others[p[0]], others[p[1]])
@@ -384,6 +385,7 @@ func (c *c08) writeRegistry(u *unit) (n int) {
 	sort.Strings(ents)
 	type pair struct{ pub, sub string }
 	reg := map[string]*pair{}
+	params := map[string][]string{}
 	pkgName := ""
 	for _, p := range ents {
 		fset := token.NewFileSet()
@@ -395,6 +397,21 @@ func (c *c08) writeRegistry(u *unit) (n int) {
 		pkgName = f.Name.Name
 		for _, d := range f.Decls {
 			fd, ok := d.(*ast.FuncDecl)
+			if ok && fd.Recv != nil && (strings.HasPrefix(fd.Name.Name, "Publish") || strings.HasPrefix(fd.Name.Name, "Subscribe")) {
+				// parameter names of the emitted methods: the harness binds the
+				// variable values by name
+				var names []string
+				for _, fl := range fd.Type.Params.List {
+					if len(fl.Names) == 0 {
+						names = append(names, "_")
+					}
+					for _, n := range fl.Names {
+						names = append(names, n.Name)
+					}
+				}
+				params[fd.Name.Name] = names
+				continue
+			}
 			if !ok || fd.Recv != nil || !strings.HasPrefix(fd.Name.Name, "New") {
 				continue
 			}
@@ -447,6 +464,22 @@ func (c *c08) writeRegistry(u *unit) (n int) {
 			return "func(p *frugal.FScopeProvider) interface{} { return " + name + "(p) }"
 		}
 		fmt.Fprintf(&sb, "\t%q: {%s, %s},\n", k, fn(p.pub), fn(p.sub))
+	}
+	sb.WriteString("}\n\n// parameter names of the emitted Publish* / Subscribe* methods\nvar ZZParams = map[string][]string{\n")
+	var mnames []string
+	for m := range params {
+		mnames = append(mnames, m)
+	}
+	sort.Strings(mnames)
+	for _, m := range mnames {
+		fmt.Fprintf(&sb, "\t%q: {", m)
+		for i, n := range params[m] {
+			if i > 0 {
+				sb.WriteString(", ")
+			}
+			fmt.Fprintf(&sb, "%q", n)
+		}
+		sb.WriteString("},\n")
 	}
 	sb.WriteString("}\n")
 	os.WriteFile(regPath, []byte(sb.String()), 0o644)
@@ -501,7 +534,7 @@ func (c *c08) goLeg() {
 		sb.WriteString(")\n\nfunc init() {\n")
 		for i, u := range linked {
 			if _, err := os.Stat(filepath.Join(u.GoDir, "zz_registry.go")); err == nil {
-				fmt.Fprintf(&sb, "\tpackages[%q] = p%d.ZZRegistry\n", u.Key, i)
+				fmt.Fprintf(&sb, "\tpackages[%q] = p%d.ZZRegistry\n\tparamNames[%q] = p%d.ZZParams\n", u.Key, i, u.Key, i)
 			}
 		}
 		sb.WriteString("}\n")
